@@ -77,7 +77,7 @@ type Contract struct {
 	Fresh       []string // components written only in objects allocated during the call
 	LoopFresh   map[int][]string
 	KFExcept    []KFClause
-	Appends     []string // ghost logs that receive exactly one entry per call (trusted primitives only)
+	Appends     []string   // ghost logs that receive exactly one entry per call (trusted primitives only)
 	ArgWrites   []ArgWrite // components written only inside the object a pointer parameter refers to (or in fresh objects)
 }
 
